@@ -3,7 +3,7 @@ import copy
 import re
 
 from .. import hooks
-from ..gen import canon, dt_us, mk_event, rand_grid, td_us
+from ..gen import big_n, canon, dt_us, mk_event, rand_grid, td_us
 from . import _tx
 from ._tx import exc_viol, is_event_list, tmod, unmodified
 
@@ -285,7 +285,7 @@ def _url(rng):
 def gen_case(rng, ctx):
     base, unit = rand_grid(rng)
     fn = rng.choice(["categorize", "categorize", "tag", "split_url_events", "simplify_string"])
-    n = rng.randrange(0, 9)
+    n = big_n(rng, rng.randrange(0, 9))
     evs = []
     for i in range(n):
         data = {k: rng.choice(_VALS) for k in rng.sample(_DKEYS, rng.randrange(0, 4))}
